@@ -171,6 +171,21 @@ fn exec_iter<S: Tbl>(ctx: &mut Ctx, ev: &Ev) {
     let strip = |v: Vec<ip::Obs>| -> Vec<ip::Obs> { v.into_iter().filter(|o| !matches!(o, ip::Obs::Hint(..))).collect() };
     let start_s: Option<S> = if fresh { None } else { Some(S::t_from_blocks(n, &ev.tabs[0])) };
     let start_d: Option<Lut> = if fresh { None } else { Some(Lut::from_blocks(n, &ev.tabs[0])) };
+    if let Some(rem) = ip::Pos::new(n, &ev.tabs[0]).remaining() {
+        if rem <= 4 * ip::MAX_DEFAULT_COST {
+            let ends = guard(|| (S::t_iter_ends_within(n, start_s.as_ref(), rem), <Lut as Tbl>::t_iter_ends_within(n, start_d.as_ref(), rem)));
+            match ends {
+                Outcome::Returned((true, true)) => {}
+                other => {
+                    ctx.violate("iterators-correspond", ev, "iter-script-preflight", format!(
+                        "stepping the iterators with next() from {}: (LutN ends, Lut ends) within the {} tables left = {:?} (script not run)",
+                        if fresh { "the start".to_string() } else { vmon::ctx::hex_of_blocks(&ev.tabs[0]) }, rem,
+                        match other { Outcome::Returned(x) => format!("{:?}", x), Outcome::Panicked(m) => format!("panic({})", m) }));
+                    return;
+                }
+            }
+        }
+    }
     let rs = guard(|| strip(S::t_iter_script(n, start_s.as_ref(), &script)));
     let rd = guard(|| strip(<Lut as Tbl>::t_iter_script(n, start_d.as_ref(), &script)));
     let same = match (&rs, &rd) {
